@@ -64,4 +64,24 @@ CHECKS = {
         technique='TLA+ spec (Locking.tla unlock queue, maturation, delivery) + TLC exhaustive bounded model + TLC trace validation incl. burst histories beyond the delivery cap',
         text="Every unlock carries its request time and maturity; TLC checks delivery time >= maturity, delivered-once and the exit rule exhaustively within bounds; on real histories both queues, the nonce and the decoded complete-unlock system transactions of each payload must equal the specification's, including bursts of more than 16 unlocks maturing together.",
         note=TRUSTED + "; exact for small integer amounts (stated in the evidence)."),
+    "C03": dict(
+        level="model_checking",
+        technique='TLA+ spec (Bridge.tla NewDeposits/NewBlockHashes/tax) + TLC exhaustive bounded deposit universe + TLC trace validation of real-app histories over a simulated Bitcoin chain',
+        text="The deposit checks are specified in the code's order over abstract deposit facts; TLC explores every batch over a small universe of transactions and flaws with hash votes and tax updates and checks credited-once, value = amount + tax, tax < value; real histories with real transactions, headers, Merkle proofs and votes are validated message by message, and the decoded deposit system transactions of every payload must equal the specification's queue.",
+        note=TRUSTED + "; hash collisions excluded; votes genuine unless built otherwise."),
+    "C05": dict(
+        level="model_checking",
+        technique='TLA+ spec (Bridge.tla withdrawal state machine) + TLC exhaustive bounded model with action properties + TLC trace validation of real-app histories',
+        text="TLC explores every interleaving (within bounds) of withdraw / fee update / cancel requests with process / replace / finalise / approve messages over overlapping id sets and checks the allowed status edges, terminal states absorbing, paid xor refund once per id, and that every accepted batch pays the user's script, at most the amount, within the current fee cap with at most one change output to the current key; real histories with real Bitcoin transactions and SPV proofs are validated step by step including the decoded paid / cancel system transactions.",
+        note=TRUSTED + "; hash collisions excluded; votes genuine unless built otherwise."),
+    "C17": dict(
+        level="model_checking",
+        technique="TLA+ spec (Bridge.tla ScriptOk / AddrOk class tables) + TLC + trace validation of real-app histories on 4 networks with addresses generated by the node's own query and by btcd",
+        text='The specification fixes which (key, EVM address, version) a generated deposit script must be accepted for and which withdrawal address classes belong to a network; real chains on each network hand out addresses through the real query handler, pay them with real transactions and must credit exactly the generating triple; withdrawal addresses of all kinds and networks must become pending or be refunded per class.',
+        note=TRUSTED + "; hash collisions excluded; votes genuine unless built otherwise."),
+    "C20": dict(
+        level="model_checking",
+        technique='TLA+ spec (Bridge.tla ParamWalk/TaxOf) + TLC exhaustive update sequences over boundary values + TLC trace validation of real-app histories',
+        text='TLC checks rate < 10000, minimum deposit >= dust and confirmations >= 1 after every sequence of updates over boundary values from boundary initial sets, and that no credited deposit has tax >= value or amount 0; the same boundary values are sent to the real application as execution-layer request lists and the stored parameters and resulting deposit amounts are compared.',
+        note=TRUSTED + "; hash collisions excluded; votes genuine unless built otherwise."),
 }
